@@ -362,6 +362,15 @@ package utils
 //@   ensures the_unsigned_number [C12]: r1 == nil ==> r0 == mm.Value && !mm.Negative
 //@   ensures only_negative_numbers_are_refused [C12]: !mm.Negative ==> r1 == nil
 
+// C10 / C12: in JSON and in JSON_IETF a decimal64 goes out as the text that also goes into the XML and that the proto value
+// denotes (a JSON number would be read back through a float64 and lose digits)
+//@ func GetJsonValue
+//@   props C10 C12 C20
+//@   internal a_decimal_goes_out_as_its_text [C10]: tv != nil && istype(tv.Value, *sdcpb.TypedValue_DecimalVal) ==>
+//@            r1 == nil && istype(r0, string) && called(TypedValueToString, 0) && callarg(TypedValueToString, 0, 0) == tv &&
+//@            dyn(r0, string) == callres(TypedValueToString, 0)
+//@   loop 0 invariant true
+
 // C12: text of a string leaf from a device or an XML document: the length statement is checked against the number of
 // characters of the value
 //@ func ConvertString
